@@ -18,6 +18,8 @@ type pathsIn struct {
 	ID  string `json:"id"`
 	S   string `json:"s"`
 	E2E bool   `json:"e2e"`
+	// Arg: with E2E, the path is the argument of a property-comparison facet (next to another facet) instead of the key
+	Arg string `json:"arg,omitempty"`
 }
 
 type pathAst struct {
@@ -101,9 +103,13 @@ func runPaths(in pathsIn) (out pathsOut) {
 		}) {
 			prefixes[tok] = "http://example.org/" + tok + "#"
 		}
+		pcs := map[string]any{in.S: map[string]any{"minCount": 1}}
+		if in.Arg != "" {
+			pcs = map[string]any{"ex.a": map[string]any{"minCount": 1, in.Arg: in.S}}
+		}
 		doc := map[string]any{"profile": "p", "prefixes": prefixes, "violation": []any{"v"},
 			"validations": map[string]any{"v": map[string]any{"targetClass": "ex.T", "message": "m",
-				"propertyConstraints": map[string]any{in.S: map[string]any{"minCount": 1}}}}}
+				"propertyConstraints": pcs}}}
 		b, _ := yaml.Marshal(doc)
 		func() {
 			defer func() {
